@@ -38,7 +38,7 @@ func verifC04Server(c SeqCase, work http.HandlerFunc, out *SeqOut) (http.Handler
 	cnf.Middlewares.Breaker = false
 	cnf.Middlewares.Shedding = false
 	cnf.Middlewares.Timeout = c.MwTo
-	cnf.Middlewares.Recover = false
+	cnf.Middlewares.Recover = c.Rec // inside the timeout middleware: a panic of the route handler is answered 500 there
 	cnf.Middlewares.Metrics = c.Inner
 	cnf.Middlewares.MaxBytes = c.Inner
 	cnf.Middlewares.Gunzip = c.Inner
